@@ -430,6 +430,13 @@ func main() {
 			// the case is reported with a Panic observation, which no model run produces
 			done := make(chan res, 1)
 			go func() {
+				// a panic inside the reassembler is reported the same way (no model run panics)
+				defer func() {
+					if p := recover(); p != nil {
+						done <- res{"RCase 1 (3600000000000) [HPush None 0 0] [[Panic]]",
+							map[string]interface{}{"case": i, "panicked": fmt.Sprint(p), "history": "re-run with -only to see it"}, "panicked", true}
+					}
+				}()
 				c, d, cl, nt := runCase(*seed, i)
 				done <- res{c, d, cl, nt}
 			}()
